@@ -87,18 +87,20 @@ theorem recompute_fresh' {pp : PP} {p : Bytes} {v : View} (F : Fresh pp p v) {L 
 /-- the cursor carried to the record's new place -/
 def Cursor.movedTo (c : Cursor) (off ne nx : Nat) : Cursor := { c with offset := some off, nameEnd := ne, offsetNext := nx }
 
-/-- **the decompress-first step**: through a cursor standing on record `r` of a record section of an
-object that still has its flag, the object becomes the plain object of the canonical pieces and the
-cursor stands on the canonical form `pc` of `r` -/
-theorem uncompressAt_fresh {pp : PP} {p : Bytes} {v : View} (F : Fresh pp p v) (L : C03.Layout p) (o : C05.Output p L)
+/-- the ingredients of the decompress-first step -/
+theorem touch_parts {pp : PP} {p : Bytes} {v : View} (F : Fresh pp p v) (L : C03.Layout p) (o : C05.Output p L)
     (sec : Section) (hs : sec.isRec = true) {l1 l2 : List RecPos} {r : RecPos} {ps1 ps2 : List Bytes} {pc : Bytes}
     (hl : L.recs sec = l1 ++ r :: l2) (hp : o.pieces sec = ps1 ++ pc :: ps2) (hlen : l1.length = ps1.length)
-    (c : Cursor) (hsec : c.sec = sec) (hoff : c.offset = some r.off) :
+    (c : Cursor) (hsec : c.sec = sec) :
     ∃ (v2 : View) (P : PlainObj (pp.rebased o.bytes v2)) (ne : Nat) (ob oa : Bool),
       parse o.bytes = .ok v2 ∧ P.lst .answer = o.pa ∧ P.lst .nameServers = o.pn ∧ P.lst .additional = o.pr ∧
       P.hdr = p.take 12 ∧ o.qc = (encLabels P.qls ++ [0]) ++ P.q4 ∧
       RRAtPos o.bytes sec ⟨P.start sec + ps1.flatten.length, ne, P.start sec + ps1.flatten.length + pc.length⟩ ob oa ∧
-      uncompressAt pp c = mOk (pp.rebased o.bytes v2) (c.movedTo (P.start sec + ps1.flatten.length) ne (P.start sec + ps1.flatten.length + pc.length)) := by
+      uncompressWithPreviousOffset p r.off = .ok (o.bytes, P.start sec + ps1.flatten.length) ∧
+      P.start sec + ps1.flatten.length ≤ o.bytes.length ∧
+      Cursor.recompute o.bytes { c with offset := some (P.start sec + ps1.flatten.length) } =
+        .ok (c.movedTo (P.start sec + ps1.flatten.length) ne (P.start sec + ps1.flatten.length + pc.length)) ∧
+      recomputeSections { pp with packet := o.bytes } = .ok (pp.rebased o.bytes v2) := by
   obtain ⟨v2, h2, hrec, _⟩ := recompute_fresh' F o
   obtain ⟨P, eA, eN, eR, eH, eQ⟩ := plainObj_of_output F.hp o h2 pp
   have hlst : P.lst sec = ps1 ++ pc :: ps2 := by
@@ -106,11 +108,10 @@ theorem uncompressAt_fresh {pp : PP} {p : Bytes} {v : View} (F : Fresh pp p v) (
   obtain ⟨ne, ob, oa, hr⟩ := P.rec_at sec hs hlst
   have hpk : (pp.rebased o.bytes v2).packet = o.bytes := rfl
   rw [hpk] at hr
-  refine ⟨v2, P, ne, ob, oa, h2, eA, eN, eR, eH, eQ, hr, ?_⟩
-  obtain ⟨_, _, bA, bN, bR⟩ := C05.boundaries F.hp L o
-  have hqcl : o.qc.length = labSum P.qls + 1 + 4 := by
-    rw [eQ]; simp only [List.length_append, P.hq4, encLabels_length, List.length_cons, List.length_nil]
-  have hun : uncompressWithPreviousOffset p r.off = .ok (o.bytes, P.start sec + ps1.flatten.length) := by
+  refine ⟨v2, P, ne, ob, oa, h2, eA, eN, eR, eH, eQ, hr, ?_, ?_, ?_, ?_⟩
+  · obtain ⟨_, _, bA, bN, bR⟩ := C05.boundaries F.hp L o
+    have hqcl : o.qc.length = labSum P.qls + 1 + 4 := by
+      rw [eQ]; simp only [List.length_append, P.hq4, encLabels_length, List.length_cons, List.length_nil]
     cases sec with
     | answer =>
       simp only [C03.Layout.recs, C05.Output.pieces] at hl hp
@@ -129,17 +130,57 @@ theorem uncompressAt_fresh {pp : PP} {p : Bytes} {v : View} (F : Fresh pp p v) (
       congr 2
     | question => simp [Section.isRec] at hs
     | edns => simp [Section.isRec] at hs
-  have hfit : P.start sec + ps1.flatten.length ≤ o.bytes.length := by
-    have := hr.pos_len
+  · have := hr.pos_len
     simp only at this
     omega
-  have hq : c.sec ≠ .question := by
-    rw [hsec]; intro h; rw [h] at hs; simp [Section.isRec] at hs
-  have hrc := recompute_spec hr { c with offset := some (P.start sec + ps1.flatten.length) } rfl hq
+  · have hq : c.sec ≠ .question := by
+      rw [hsec]; intro h; rw [h] at hs; simp [Section.isRec] at hs
+    have := recompute_spec hr { c with offset := some (P.start sec + ps1.flatten.length) } rfl hq
+    rw [this]; rfl
+  · simp only [recomputeSections, hrec, bind_ok, pure_eq]
+
+/-- **the decompress-first step**: through a cursor standing on record `r` of a record section of an
+object that still has its flag, the object becomes the plain object of the canonical pieces and the
+cursor stands on the canonical form `pc` of `r` -/
+theorem uncompressAt_fresh {pp : PP} {p : Bytes} {v : View} (F : Fresh pp p v) (L : C03.Layout p) (o : C05.Output p L)
+    (sec : Section) (hs : sec.isRec = true) {l1 l2 : List RecPos} {r : RecPos} {ps1 ps2 : List Bytes} {pc : Bytes}
+    (hl : L.recs sec = l1 ++ r :: l2) (hp : o.pieces sec = ps1 ++ pc :: ps2) (hlen : l1.length = ps1.length)
+    (c : Cursor) (hsec : c.sec = sec) (hoff : c.offset = some r.off) :
+    ∃ (v2 : View) (P : PlainObj (pp.rebased o.bytes v2)) (ne : Nat) (ob oa : Bool),
+      parse o.bytes = .ok v2 ∧ P.lst .answer = o.pa ∧ P.lst .nameServers = o.pn ∧ P.lst .additional = o.pr ∧
+      P.hdr = p.take 12 ∧ o.qc = (encLabels P.qls ++ [0]) ++ P.q4 ∧
+      RRAtPos o.bytes sec ⟨P.start sec + ps1.flatten.length, ne, P.start sec + ps1.flatten.length + pc.length⟩ ob oa ∧
+      uncompressAt pp c = mOk (pp.rebased o.bytes v2) (c.movedTo (P.start sec + ps1.flatten.length) ne (P.start sec + ps1.flatten.length + pc.length)) := by
+  obtain ⟨v2, P, ne, ob, oa, h2, eA, eN, eR, eH, eQ, hr, hun, hfit, hrc, hrs⟩ := touch_parts F L o sec hs hl hp hlen c hsec
+  refine ⟨v2, P, ne, ob, oa, h2, eA, eN, eR, eH, eQ, hr, ?_⟩
   unfold uncompressAt
   simp only [hoff, F.pk, hun, assert, hfit, decide_true, if_true, bind_ok]
   rw [hrc]
-  simp only [bind_ok, recomputeSections, hrec, pure_eq, mOk, Cursor.movedTo]
+  simp only [bind_ok, hrs, mOk]
+
+/-- **in-place decompression through an iterator** (`DNSIterable::uncompress`): the same result -/
+theorem iterUncompress_fresh {pp : PP} {p : Bytes} {v : View} (F : Fresh pp p v) (L : C03.Layout p) (o : C05.Output p L)
+    (sec : Section) (hs : sec.isRec = true) {l1 l2 : List RecPos} {r : RecPos} {ps1 ps2 : List Bytes} {pc : Bytes}
+    (hl : L.recs sec = l1 ++ r :: l2) (hp : o.pieces sec = ps1 ++ pc :: ps2) (hlen : l1.length = ps1.length)
+    (c : Cursor) (hsec : c.sec = sec) (hoff : c.offset = some r.off) :
+    ∃ (v2 : View) (P : PlainObj (pp.rebased o.bytes v2)) (ne : Nat),
+      parse o.bytes = .ok v2 ∧ P.lst .answer = o.pa ∧ P.lst .nameServers = o.pn ∧ P.lst .additional = o.pr ∧
+      iterUncompress pp c = mOk (pp.rebased o.bytes v2) (c.movedTo (P.start sec + ps1.flatten.length) ne (P.start sec + ps1.flatten.length + pc.length)) := by
+  obtain ⟨v2, P, ne, ob, oa, h2, eA, eN, eR, eH, eQ, hr, hun, hfit, hrc, hrs⟩ := touch_parts F L o sec hs hl hp hlen c hsec
+  refine ⟨v2, P, ne, h2, eA, eN, eR, ?_⟩
+  unfold iterUncompress
+  have hnot : (!pp.maybeCompressed) = false := by rw [F.mc]; rfl
+  rw [hnot]
+  simp only [Bool.false_eq_true, if_false, hoff, F.pk, hun, assert, hfit, decide_true, if_true, bind_ok, hrs]
+  have : (pp.rebased o.bytes v2).packet = o.bytes := rfl
+  rw [this, hrc]
+  simp only [bind_ok, mOk]
+
+/-- on an object whose flag is cleared, `uncompress` through an iterator does nothing -/
+theorem iterUncompress_plain (pp : PP) (c : Cursor) (h : pp.maybeCompressed = false) :
+    iterUncompress pp c = .ok { pp := pp, cur := c, result := none } := by
+  unfold iterUncompress
+  simp [h]
 
 /-- the section accessor on an object that still has its parse-time view -/
 theorem currentSection_fresh {pp : PP} {p : Bytes} {v : View} (F : Fresh pp p v) (L : C03.Layout p)
